@@ -10,6 +10,7 @@ kinds:  pending   - PENDING sentinel returned or left behind at an outermost ret
         greens    - direct_greens_function residual / projection above tolerance
         product   - product_by_order differs from the dense Cauchy sum of the cached factors
         write     - (raised by numpy itself) write into a read-only (poisoned) buffer
+        causal    - a nested BlockSeries request at an order exceeding the outermost requested order
 """
 from __future__ import annotations
 
@@ -33,13 +34,14 @@ CONFIG = {
 }
 _installed = False
 _depth = 0
+_outer_orders = None
 _touched: "weakref.WeakSet" = weakref.WeakSet()
 PRODUCT_STACK: list = []  # (index, first, second) of the product_by_order calls in progress
 REPO = os.path.realpath(os.environ.get("VERIF_REPO", "/repo"))
 
 
 def configure(cfg: dict):
-    CONFIG.update({"poison": False, "product": True, "solvers": True, "max_dim": 64})
+    CONFIG.update({"poison": False, "product": True, "solvers": True, "max_dim": 64, "causal": False})
     CONFIG.update(cfg or {})
 
 
@@ -121,11 +123,29 @@ def _install_getitem(ser):
                 if val is PENDING:
                     violation("pending", f"PENDING left in series {s.name!r} at {idx} after outermost return")
 
+    def int_orders(self, item):
+        if not isinstance(item, tuple):
+            return None
+        ords = item[len(self.shape):]
+        if len(ords) != self.n_infinite or not ords:
+            return None
+        if all(isinstance(o, (int, np.integer)) for o in ords):
+            return tuple(int(o) for o in ords)
+        return None
+
     @functools.wraps(orig)
     def getitem(self, item):
-        global _depth
+        global _depth, _outer_orders
         _depth += 1
         _touched.add(self)
+        if CONFIG.get("causal"):
+            o = int_orders(self, item)
+            if _depth == 1:
+                _outer_orders = o
+            elif o is not None and _outer_orders is not None and len(o) == len(_outer_orders):
+                COUNTERS["causal_nested_requests"] += 1
+                if any(a > b for a, b in zip(o, _outer_orders)):
+                    violation("causal", f"nested request {self.name!r}[{item}] exceeds the outermost requested order {_outer_orders}")
         try:
             result = orig(self, item)
         finally:
